@@ -24,9 +24,15 @@ func c07Router(c *vk.Ctx) {
 				continue
 			}
 			jobs = append(jobs, Job{Harness: "RouterScenario", Bound: -1, BudgetS: budget, FallbackDelay: fb, Params: map[string]int{"sc": sc, "buflen": bl}})
+			// the same with a scheduling point before every message a writer sends: the moment a client
+			// decides to send is then independent of when its previous message was taken (more real-time
+			// orders for the must / must-not clauses of the oracle)
+			if c.Thorough() || (bl == 1 && sc != 4 && sc != 5 && sc != 11) {
+				jobs = append(jobs, Job{Harness: "RouterScenario", Bound: -1, BudgetS: budget, FallbackDelay: fb, Params: map[string]int{"sc": sc, "buflen": bl, "think": 1}})
+			}
 		}
 	}
-	c.P.Rule = "E1: every schedule of one real RouterHandler with 2-3 client connections (each: session, writer script, reader) in 15 scenarios (subscribe/publish, matching and non-matching, replacement, CLOSE, two subscribers with the same id, two publishers, disconnect by cancel or inbound close at every cut point, stalled subscriber with buflen+2 publications, self-delivery, a second publication after the first phase is quiescent following REQ/CLOSE/REQ or a first REQ racing with a publication) x buflen {1,2}; map iteration order in Publish is an explored choice; unbounded within a per-job budget, else complete up to a delay bound; oracle by real-time order of call/return stamps (must / may / must-not)"
+	c.P.Rule = "E1: every schedule of one real RouterHandler with 2-3 client connections (each: session, writer script, reader) in 15 scenarios (subscribe/publish, matching and non-matching, replacement, CLOSE, two subscribers with the same id, two publishers, disconnect by cancel or inbound close at every cut point, stalled subscriber with buflen+2 publications, self-delivery, a second publication after the first phase is quiescent following REQ/CLOSE/REQ or a first REQ racing with a publication) x buflen {1,2}, plus variants with a scheduling point before every message a client sends; map iteration order in Publish is an explored choice; unbounded within a per-job budget, else complete up to a delay bound; oracle by real-time order of call/return stamps (must / may / must-not)"
 	res := runJobs(c, jobs)
 	for i, r := range res {
 		if i%6 == 0 {
